@@ -916,7 +916,12 @@ impl DhtNetworkManager {
         // Get initial candidates from local routing table and connected peers
         // IMPORTANT: Use find_closest_nodes_local to avoid making network requests
         // before the iterative lookup loop starts - we want to start with only nodes we know about
-        let initial = self.find_closest_nodes_local(key, ALPHA * 2).await;
+        // Seed with everything we know locally (closest first), not just the closest few:
+        // replies only ever name peers close to the key, so a known peer that is far
+        // from it - but may well hold the value - would otherwise never be asked.
+        let initial = self
+            .find_closest_nodes_local(key, MAX_CANDIDATE_NODES)
+            .await;
 
         for node in initial {
             queued_peer_ids.insert(node.peer_id.clone());
